@@ -176,6 +176,9 @@ func Main(m *testing.M, id, level, rule string, assumptions ...string) {
 }
 
 func (r *Run) loadKnown() {
+	if os.Getenv("VERIF_NO_KNOWN") != "" {
+		return // sensitivity experiments only: is a change caught by generated search alone?
+	}
 	files := []string{filepath.Join(r.Root, "known_findings.json")}
 	staged, _ := filepath.Glob(filepath.Join(r.Root, "known_findings.d", "*.json"))
 	sort.Strings(staged)
